@@ -125,6 +125,26 @@ CLAIMS["C18"] = dict(
          "faithfulness of every conversion the engine made.",
     note=TRUST + "pydantic-core leaf validators and json.loads are the engine (parameter of the theorem, checked leaf by leaf); lax but numerically faithful integer spellings are accepted; one known finding (D30b).")
 
+CLAIMS["C14"] = dict(
+    technique="Lean 4 proof (dispatch over the regenerated discriminated union; kernel-checked facts of the live class table; shallow forbid/required rules; filter exactness) + differential correspondence on valid and damaged definitions of all 18 types",
+    text="Dispatch.dispatch models AllResourcesType (tagged union on the literal Type, then left-to-right fallback to GenericResource guarded by "
+         "check_type) over the class table regenerated from the live classes. Proved: a modelled Type in strict mode yields its dedicated class "
+         "or a rejection, never a generic resource (C14_exact); the fallback exists only with strict off (C14_non_strict); the live table has 18 "
+         "classes with distinct literals, discriminator Type, left-to-right order, extra=forbid on every class and Properties class, strict by "
+         "default (C14_table, decided by the kernel on every regeneration); unknown members and missing required properties fail the shallow "
+         "rules (C14_strict_errors); resources_filtered_by_type is an exact filter by class-or-base or Type text (C14_filter). Correspondence: a "
+         "valid definition of each type and three damages each, other type strings, strict on/off; class preservation through resolve and expand_actions.",
+    note=TRUST + "pydantic-core's verdict on whether a definition satisfies a class in depth is a parameter of the model (supplied per case, and required to imply the shallow rules).")
+CLAIMS["C19"] = dict(
+    technique="Lean 4 proof (every custom validator, over all JSON values, lets only ValueError escape; witnesses for the two guards) + differential correspondence at each validator site + sandboxed malformed-template stream",
+    text="Validators.* transliterate the library's custom validators (check_type, validate_binary, FunctionDict check, Generic.casting, remove_colon, "
+         "Effect, SemiStrictBool, loose networks) on arbitrary JSON. C19_exception_class: for every JSON value each returns or raises ValueError "
+         "(which pydantic reports as its validation error); C19_guards_needed proves by witness that without the isinstance / broader except "
+         "guards a TypeError escapes. Each site is called directly on values of every JSON kind and compared; whole malformed templates "
+         "(one hostile value at a random place of a valid template, hostile whole-template values, nesting to 3000 levels, 200k-member "
+         "containers, long texts) go through pycfmodel.parse in a worker under RLIMIT_AS and a wall clock: only a model or ValidationError is admissible.",
+    note=TRUST + "partial: stack depth, memory, wall time and process termination are runtime behaviour, exercised by the sandbox, not proved; pydantic-core's own rejection paths are trusted.")
+
 DESIGN_REF = {k: f"DESIGN.md §5 {k}" for k in CLAIMS}
 
 
